@@ -327,6 +327,13 @@ class DeterministicFiniteAutomaton(NondeterministicFiniteAutomaton):
         # Remove unreachable
         reachables = self._get_reachable_states()
         states = self._states.intersection(reachables)
+        # States from which no final state can be reached behave like the
+        # implicit trash state; they are not part of the minimal automaton
+        states = states.intersection(self._get_states_leading_to_final())
+        if not states.intersection(self._start_state):
+            res = DeterministicFiniteAutomaton()
+            res.add_start_state(State("Empty"))
+            return res
         # Group the equivalent states
         partition = self._get_partition()
         groups = partition.get_groups()
